@@ -8,8 +8,9 @@ from typing import Iterator
 
 ALPHABETS: dict[str, str] = {
     # C03/C08: "nasty" characters
-    "nasty": "a1 \n\\'\"{}()#$!`\t\ré:",
-    "nasty_ff": "a1 \n\\'\"{}()#$!`\t\ré:\f",
+    # \xa0 and \x0b stand for the characters that are whitespace to str.isspace() but not to the tokenizer's patterns
+    "nasty": "a1 \n\\'\"{}()#$!`\t\ré:\xa0\x0b",
+    "nasty_ff": "a1 \n\\'\"{}()#$!`\t\ré:\f\xa0",
     "small": "a \n\\'\"{(#$!\t",
     # Python-lexicon layout characters (C01/C02/C11): continuation, comments, brackets, quotes, tabs, CR
     "pylay": "a1 \n\\\t#(,)'\":=\r;",
